@@ -171,8 +171,8 @@ Definition pbody (sd : styledata) (ri : res (list styledecl)) (html : bool) (nam
   do inls <- ri;
   let computed := computed_style sd me inls in
   match ws_val (c_display (cs_core computed)) with
-  | Some _ => Ok None
-  | None =>
+  | Some true => Ok None
+  | _ =>
     let is_a := html && names [[97]] name in
     do base <-
        (if negb html then
@@ -350,8 +350,8 @@ Section Prune.
   Definition hidden (me : list anc) (attrs : list (text * text)) : bool :=
     match (if udc then inl attrs else Ok []) with
     | Ok inls => match ws_val (c_display (cs_core (computed_style sd me inls))) with
-                 | Some _ => true
-                 | None => false
+                 | Some true => true
+                 | _ => false
                  end
     | _ => false
     end.
@@ -388,7 +388,8 @@ Section Prune.
   Proof.
     intros html name attrs me rk H. unfold hidden in H. unfold pbody.
     destruct (if udc then inl attrs else Ok []) as [inls| | |]; try discriminate H. cbn [bind].
-    destruct (ws_val (c_display (cs_core (computed_style sd me inls)))); [reflexivity|discriminate H].
+    destruct (ws_val (c_display (cs_core (computed_style sd me inls)))) as [[|]|];
+      [reflexivity|discriminate H|discriminate H].
   Qed.
 
   Lemma process_hidden : forall html name attrs kids p idx,
@@ -752,12 +753,12 @@ Lemma pbody_strip_attrs : forall sd html name attrs me rk,
 Proof.
   intros. unfold pbody. cbn [bind].
   rewrite fragment_of_strip, (img_attrs_strip attrs None None I).
-  destruct (ws_val _); [reflexivity|].
-  destruct (negb html); [reflexivity|].
-  destruct (names [[105;109;103]] name); [reflexivity|].
-  destruct (names [[98;114]] name); [reflexivity|].
-  destruct (names _ name); [reflexivity|].
-  destruct rk as [cs| | |]; cbn [bind]; [rewrite build_element_strip|..]; reflexivity.
+  destruct (ws_val _) as [[|]|]; [reflexivity|..];
+  (destruct (negb html); [reflexivity|];
+   destruct (names [[105;109;103]] name); [reflexivity|];
+   destruct (names [[98;114]] name); [reflexivity|];
+   destruct (names _ name); [reflexivity|];
+   destruct rk as [cs| | |]; cbn [bind]; [rewrite build_element_strip|..]; reflexivity).
 Qed.
 
 Lemma pbody_style_kids : forall sd ri name attrs me rk rk',
@@ -766,13 +767,13 @@ Lemma pbody_style_kids : forall sd ri name attrs me rk rk',
 Proof.
   intros sd ri name attrs me rk rk' Hs. unfold pbody.
   destruct ri as [inls| | |]; cbn [bind]; try reflexivity.
-  destruct (ws_val _); [reflexivity|]. cbn [negb].
-  destruct (names [[105;109;103]] name); [reflexivity|].
-  destruct (names [[98;114]] name); [reflexivity|].
-  replace (names [[108;105;110;107]; [109;101;116;97]; [104;114]; [115;99;114;105;112;116];
-                  [115;116;121;108;101]; [104;101;97;100]] name) with true; [reflexivity|].
-  unfold names. cbn [existsb]. change [115;116;121;108;101] with s_style. rewrite Hs.
-  rewrite !orb_true_r. reflexivity.
+  destruct (ws_val _) as [[|]|]; [reflexivity|..]; cbn [negb];
+  (destruct (names [[105;109;103]] name); [reflexivity|];
+   destruct (names [[98;114]] name); [reflexivity|];
+   replace (names [[108;105;110;107]; [109;101;116;97]; [104;114]; [115;99;114;105;112;116];
+                   [115;116;121;108;101]; [104;101;97;100]] name) with true; [reflexivity|];
+   unfold names; cbn [existsb]; change [115;116;121;108;101] with s_style; rewrite Hs;
+   rewrite !orb_true_r; reflexivity).
 Qed.
 
 Lemma pk_map : forall proc proc' (f : node -> node) kids,
@@ -927,7 +928,7 @@ Example ex_style_sim :
   let sd := the_sd cfg doc1 in
   let p i j := [mkanc (t "b") [] i; mkanc (t "p") [] j; mkanc (t "div") [(t "class", t "j k")] 7%Z] in
   computed_style sd (p 2%Z 1%Z) [] = computed_style sd (p 5%Z 3%Z) [] /\
-  ws_val (c_display (cs_core (computed_style sd (p 2%Z 1%Z) []))) = Some tt.
+  ws_val (c_display (cs_core (computed_style sd (p 2%Z 1%Z) []))) = Some true.
 Proof.
   cbv zeta. split; [|vm_compute; reflexivity].
   apply computed_style_sim; [vm_compute; reflexivity|].
@@ -965,6 +966,21 @@ Example style_in_hidden_subtree :
   out cfg [el "p" [] [tx "x"]] = Ok (lN "x" ++ [10])%list /\
   effective_sd doc_rules cfg [el "p" [] [tx "x"]] <> effective_sd doc_rules cfg doc_sh.
 Proof. vm_compute. repeat split; try reflexivity. discriminate. Qed.
+
+(* ---- a winning display value other than none (cell = Some false) does not hide: the inline
+   display:block beats the sheet's p{display:none}, the element is kept by prune and rendered ---- *)
+Definition doc_blk : list node :=
+  [el "style" [] [tx "p{display:none}"];
+   el "p" [("style", "display:block")] [tx "x"]; el "p" [] [tx "y"]].
+Example ex_display_other_kept :
+  prune_doc (the_sd cfg doc_blk) true inline_styles doc_blk =
+    [el "style" [] [tx "p{display:none}"]; el "p" [("style", "display:block")] [tx "x"]] /\
+  ws_val (c_display (cs_core (computed_style (the_sd cfg doc_blk)
+            [mkanc (t "p") [(t "style", t "display:block")] 2%Z]
+            (match inline_styles [(t "style", t "display:block")] with Ok l => l | _ => [] end))))
+    = Some false /\
+  out cfg doc_blk = Ok (lN "x" ++ [10])%list.
+Proof. vm_compute. repeat split; reflexivity. Qed.
 
 (* ---- (4): document CSS disabled ---- *)
 Definition doc4 : list node :=
